@@ -9,6 +9,17 @@ use crate::geometry::traits::coordinate::CoordinateScalar;
 use crate::topology::traits::topological_space::{TopologicalSpace, TopologyKind};
 use num_traits::NumCast;
 
+/// Wraps `value` into the half-open interval `[0, period)`.
+///
+/// `f64::rem_euclid` adds `period` to a negative remainder; for a tiny negative `value` that
+/// sum rounds to `period` itself, which lies outside the fundamental domain and would wrap to
+/// `0.0` if canonicalized a second time. Such a value is congruent to `0.0`, so return that.
+#[inline]
+pub(crate) fn wrap_into_period(value: f64, period: f64) -> f64 {
+    let wrapped = value.rem_euclid(period);
+    if wrapped >= period { 0.0 } else { wrapped }
+}
+
 /// Represents toroidal topological space with periodic boundaries.
 ///
 /// Toroidal spaces have periodic boundary conditions defined by a
@@ -96,7 +107,7 @@ impl<const D: usize> ToroidalSpace<D> {
         if !v_f64.is_finite() {
             return None;
         }
-        let wrapped = v_f64.rem_euclid(period);
+        let wrapped = wrap_into_period(v_f64, period);
         <T as NumCast>::from(wrapped)
     }
 }
@@ -115,7 +126,7 @@ impl<const D: usize> TopologicalSpace for ToroidalSpace<D> {
     fn canonicalize_point(&self, coords: &mut [f64]) {
         for (coord, &period) in coords.iter_mut().zip(self.domain.iter()) {
             if period.is_finite() && period > 0.0 {
-                *coord = coord.rem_euclid(period);
+                *coord = wrap_into_period(*coord, period);
             }
         }
     }
